@@ -4,6 +4,7 @@
    the Go race detector's (see the check and DESIGN.md C15).  PARTIAL by nature. *)
 From Coq Require Import List NArith Bool.
 From FsDb Require Import Lockset.
+From FsDb Require LockSkel LockSkelGen LockSkelCheck.
 Import ListNotations.
 Open Scope N_scope.
 
@@ -31,6 +32,23 @@ Example C15_nonvacuous :
             lrun [] [EAcq 1 2 MR; EAcq 2 2 MW] = None.
 Proof. eexists. split; reflexivity. Qed.
 
+(* ---- tie of the step granularity to the source: the lock/effect skeleton of internal/usecase/core, regenerated
+   from the Go source on every run (harness/lockskel.go -> LockSkelGen.v), satisfies the discipline of LockSkel.v *)
+Theorem C15_lock_skeleton_ok :
+  LockSkel.skeleton_ok LockSkelGen.skeleton = true /\ LockSkel.covers LockSkelGen.skeleton = true.
+Proof. split; [exact LockSkelCheck.fsdb_skeleton_ok | exact LockSkelCheck.fsdb_skeleton_covers]. Qed.
+
+(* in a checked path every mutation of a version store happens with its write lock held and every read with its lock
+   held: the accesses of internal/usecase/core follow the discipline that C15_lockset_sound needs *)
+Theorem C15_core_accesses_protected :
+  forall r p q e h0 hend,
+    LockSkel.run r h0 (p ++ e :: q) = Some hend ->
+    exists h, LockSkel.run r h0 p = Some h /\
+      match e with LockSkel.Wr l => LockSkel.holds_w h l = true | LockSkel.Rd l => LockSkel.holds h l = true | _ => True end.
+Proof. exact LockSkel.accesses_protected. Qed.
+
 Print Assumptions C15_mutual_exclusion.
 Print Assumptions C15_lockset_sound.
 Print Assumptions C15_table_complete.
+Print Assumptions C15_lock_skeleton_ok.
+Print Assumptions C15_core_accesses_protected.
